@@ -25,4 +25,46 @@ the translator could not execute is opaque: any call fails) -/
 def tobaseOf (r : UnitRow) (x : Rat) : Except ErrKind Rat :=
   if !r.ok then .error .other else r.toBase.apply x
 
+/-- `unit_info.frombase`, as `tobaseOf` -/
+def frombaseOf (r : UnitRow) (x : Rat) : Except ErrKind Rat :=
+  if !r.ok then .error .other else r.fromBase.apply x
+
+/-- an attribute of `self` that a translated method reads and writes, carried as state: not there at all (reading it
+is `AttributeError`), `None`, or a value -/
+inductive Attr (α : Type)
+  | absent
+  | none
+  | val (a : α)
+deriving DecidableEq, Repr
+
+/-- `self.x` -/
+def Attr.get {α : Type} : Attr α → Except ErrKind (Option α)
+  | .absent => .error .other
+  | .none => .ok Option.none
+  | .val a => .ok (some a)
+
+/-- `hasattr(self, "x")` -/
+def Attr.has {α : Type} : Attr α → Bool
+  | .absent => false
+  | _ => true
+
+/-- `self.x = e` for an `e` that may be `None` -/
+def Attr.ofOption {α : Type} : Option α → Attr α
+  | Option.none => .none
+  | some a => .val a
+
+/-- a number where `None` is a `TypeError` (`None < 2`) -/
+def unNone {α : Type} : Option α → Except ErrKind α
+  | Option.none => .error .type
+  | some a => .ok a
+
+/-- `set(a).issuperset(set(b))` on lists of names -/
+def isSuperset {α : Type} [BEq α] (a b : List α) : Bool := b.all (fun k => a.contains k)
+
+/-- `xs[i]` for a constant index `i ≥ 0`: `IndexError` past the end -/
+def index {α : Type} (xs : List α) (i : Nat) : Except ErrKind α :=
+  match xs[i]? with
+  | some x => .ok x
+  | Option.none => .error .index
+
 end Barril.PyRt
